@@ -598,9 +598,9 @@ func fromNativeEndian(v ssa.Value) bool {
 // collection expressions (as rendered inside len(...)) of the walks checked by
 // ruleCollectionExhausted
 const (
-	collDBINames   = `lmdbenv\.ReadDBINames@[\w~]+#0`
+	collDBINames   = `lmdbenv\.ReadDBINames@[\w~]+#0|github\.com/samber/lo\.Filter@[\w~]+`
 	collSnapDBIs   = `[^()]*\.Databases`
-	collLocalNames = `local:[\w~]+|\*?alloc:[\w.~]+|lmdbenv\.ReadDBINames@[\w~]+#0`
+	collLocalNames = `local:[\w~]+|\*?alloc:[\w.~]+|lmdbenv\.ReadDBINames@[\w~]+#0|github\.com/samber/lo\.Filter@[\w~]+`
 )
 
 // COLLECTION-EXHAUSTED: the listed functions walk a collection (the DBIs of a
@@ -612,7 +612,9 @@ const (
 // transaction still commits. allowed lists, per function, the conditions under
 // which an early successful end is intended.
 func ruleCollectionExhausted(c *Check, rule, name, coll, what string, allowed func(p *Path) bool) {
-	collRe := regexp.MustCompile(`len\((` + coll + `)\)`)
+	// the loop's own exhaustion test: index < len(coll), the ok flag of a map
+	// range over coll, or a bare call such as Decoder.More
+	collRe := regexp.MustCompile(`len\((` + coll + `)\)|next\(range\((` + coll + `)\)@[\w~]+\)@[\w~]+#0|^!?(` + coll + `)$`)
 	fn, paths := c.walkFn(rule, name, WalkConfig{Memo: true, MaxPaths: 120000,
 		KeepAtom: func(a Atom) bool {
 			s := a.String()
@@ -648,14 +650,17 @@ func ruleCollectionExhausted(c *Check, rule, name, coll, what string, allowed fu
 			continue
 		}
 		nLoop++
-		if p.End != "return" || len(p.Rets) == 0 {
+		if p.End != "return" {
 			continue
 		}
-		r := p.Rets[len(p.Rets)-1]
-		isNil := r == "nil"
-		if !isNil {
-			if v, ok := p.State.BoolOf("isnil(" + r + ")"); ok && v {
-				isNil = true
+		isNil := !returnsError(fn) // without an error result every return is a successful one
+		if returnsError(fn) && len(p.Rets) > 0 {
+			r := p.Rets[len(p.Rets)-1]
+			isNil = r == "nil"
+			if !isNil {
+				if v, ok := p.State.BoolOf("isnil(" + r + ")"); ok && v {
+					isNil = true
+				}
 			}
 		}
 		if !isNil {
@@ -680,4 +685,13 @@ func ruleCollectionExhausted(c *Check, rule, name, coll, what string, allowed fu
 	}
 	c.Floor(rule, nLoop, 2, "paths through the collection loop of "+name)
 	c.Floor(rule, nEnd, 1, "successful ends behind the collection loop of "+name)
+}
+
+func returnsError(fn *ssa.Function) bool {
+	res := fn.Signature.Results()
+	if res.Len() == 0 {
+		return false
+	}
+	n, ok := res.At(res.Len() - 1).Type().(*types.Named)
+	return ok && n.Obj().Pkg() == nil && n.Obj().Name() == "error"
 }
